@@ -36,6 +36,8 @@ SQL_WITNESSES = [
     ("sqltype:rule:mul-one", "select s * 1 from t"),
     ("sqltype:rule:mul-zero", "select f * 0 from t"),
     ("sqltype:rule:sub-zero", "select s - 0 from t"),
+    ("sqltype:fold-null-loses-type", "select i, 1 / 0 from t"),
+    ("sqltype:fold-null-loses-type", "select 1 = null from t"),
     ("sqltype:rule:add-same", "select m, ((case when b then s else s end) + (case when b then s else s end)) from t where (not b)"),
 ]
 
@@ -279,6 +281,11 @@ def run(ck):
                 sig = "sqltype:rule:sub-cancel"
             elif norm(b) != norm(op) and len(b.split()) == len(op.split()) and has_sub_cancel(q, " + "):
                 sig = "sqltype:rule:add-same"
+            elif norm(b) != norm(op) and len(b.split()) == len(op.split()) and all(
+                    x == y or y.strip("()") == "NULL" for x, y in zip(norm(b).split(), norm(op).split())):
+                # constant folding replaced a typed expression whose value is NULL by the untyped
+                # NULL constant
+                sig = "sqltype:fold-null-loses-type"
             elif norm(b) != norm(op):
                 sig = "sqltype:optimizer-retypes"
             else:
